@@ -1,15 +1,92 @@
 /-
-C43R — stop point / stop task across `cylc reload` (the C43 clauses on the Sched3Reload model).
+C43R — stop point and stop task across `cylc reload` (the C43 clauses on the `Sched3Reload` model).
+Statements only; proofs by reference to `Sched3ReloadStop`.
+
+`StopOK fcp file s` = the stop-point state of `s` is coherent: the configuration has final point `fcp` and
+flow.cylc stop point `file`; the pool's stop point is what the configuration yields from the `--stopcp` option
+(set by `cylc stop <point>`, by a restart / reload from the DB), else flow.cylc, else the final point; all recorded
+stop points lie within the final point; without an option the DB holds no stop point.  It holds in every state of
+every run (`stop_state_coherent_run`).
 -/
-import CylcModel.Sched3ReloadLemmas
+import CylcModel.Sched3ReloadStop
 namespace CylcModel.C43R
 open CylcModel.Sched3Reload
 
-/-- a rejected definition moves neither the stop point nor the stop task -/
-theorem rejected_reload_keeps_stop (s : State) :
-    (reloadCmd none s).stopPoint = s.stopPoint ∧ (reloadCmd none s).stopTask = s.stopTask := by
-  unfold reloadCmd reloadResume reloadParams reloadPause
-  simp only
-  split <;> split <;> simp [flushDb] <;> (repeat' split) <;> simp
+/-- **`cylc reload` preserves the pool's stop point** - for EVERY state whose stop-point state is coherent, for an
+accepted definition that keeps the final point and the flow.cylc stop point as well as for a rejected one (and the
+state stays coherent). -/
+theorem reload_keeps_stop_point {fcp : Int} {file : Option Int} (ng : Option Graph) (s : State)
+    (h : StopOK fcp file s) (hfile : ∀ p, file = some p → p ≤ fcp)
+    (hg : ∀ g', ng = some g' → g'.fcp = fcp ∧ g'.cfgStopFile = file) :
+    (reloadCmd ng s).stopPoint = s.stopPoint ∧ StopOK fcp file (reloadCmd ng s) :=
+  reloadCmd_stop ng s h hfile hg
+
+/-- **`cylc reload` preserves the stop task** and its finished flag - for every state and every definition. -/
+theorem reload_keeps_stop_task (ng : Option Graph) (s : State) :
+    (reloadCmd ng s).stopTask = s.stopTask ∧ (reloadCmd ng s).stopTaskFinished = s.stopTaskFinished :=
+  reloadCmd_stopTask ng s
+
+/-- **a main-loop iteration, with or without a queued reload command, does not move the stop point** -/
+theorem main_loop_keeps_stop_point {fcp : Int} {file : Option Int} (s : State) (cmd : Option (Option Graph))
+    (h : StopOK fcp file s) (hfile : ∀ p, file = some p → p ≤ fcp)
+    (hc : ∀ g', cmd = some (some g') → g'.fcp = fcp ∧ g'.cfgStopFile = file) :
+    (mainLoop s cmd).stopPoint = s.stopPoint :=
+  mainLoop_stop s cmd h hfile hc
+
+/-- `cylc stop <point>` (within the final point) puts exactly that point in force -/
+theorem stop_command_sets_stop_point {fcp : Int} {file : Option Int} (s : State) (p : Int) (h : StopOK fcp file s)
+    (hp : p ≤ fcp) : (setStopPoint s p).stopPoint = some p ∧ StopOK fcp file (setStopPoint s p) := by
+  refine ⟨?_, stopOK_setStopPoint s p h hp⟩
+  unfold setStopPoint
+  split
+  · rename_i he; simpa using he
+  · simp only
+    split
+    · split <;> rfl
+    · rfl
+
+/-- **the stop-point state is coherent in every state of every run**: any flags, any well-formed start graph (its
+stop point is the configured one or the final point), any op list whose stop points lie within the final point and
+whose reloads keep the final point and the flow.cylc stop point. -/
+theorem stop_state_coherent_run {fcp : Int} {file : Option Int} (fl : Flags) (g : Graph)
+    (hg : g.fcp = fcp ∧ g.cfgStopFile = file ∧ g.stopPoint = some (file.getD fcp))
+    (hfile : ∀ p, file = some p → p ≤ fcp) (ops : List Op) (hops : ∀ op ∈ ops, OpOK fcp file op) :
+    ∀ s ∈ run fl g ops, StopOK fcp file s :=
+  stopOK_run fl g hg hfile ops hops
+
+/-- ... hence in every state of every run a reload (run between main loops or inside one) keeps the stop point
+and the stop task. -/
+theorem reload_keeps_stop_point_run {fcp : Int} {file : Option Int} (fl : Flags) (g : Graph)
+    (hg : g.fcp = fcp ∧ g.cfgStopFile = file ∧ g.stopPoint = some (file.getD fcp))
+    (hfile : ∀ p, file = some p → p ≤ fcp) (ops : List Op) (hops : ∀ op ∈ ops, OpOK fcp file op)
+    (s : State) (hs : s ∈ run fl g ops) (ng : Option Graph)
+    (hng : ∀ g', ng = some g' → g'.fcp = fcp ∧ g'.cfgStopFile = file) :
+    (reloadCmd ng s).stopPoint = s.stopPoint ∧ (mainLoop s (some ng)).stopPoint = s.stopPoint ∧
+      (reloadCmd ng s).stopTask = s.stopTask := by
+  have h := stopOK_run fl g hg hfile ops hops s hs
+  refine ⟨(reloadCmd_stop ng s h hfile hng).1, ?_, (reloadCmd_stopTask ng s).1⟩
+  exact mainLoop_stop s (some ng) h hfile (fun g' e => hng g' (by injection e))
+
+/-! ### Non-vacuity -/
+
+/-- `P1 = a`, cycles 1..3 -/
+def exG (tasks : List String) : Graph :=
+  { icp := 1, fcp := 3, start := 1, runahead := 3, seqs := [[1, 2, 3]], stopPoint := some 3,
+    tasks := tasks.map fun n =>
+      { name := n,
+        insts := [1, 2, 3].map fun p => ((p : Int), { pre := [], sui := [], children := [], nextParentless := none }),
+        firstParentless := some 1, completion := CE.var "succeeded",
+        outputs := [{ trigger := "succeeded", message := "succeeded" }] } }
+
+-- the start-up state of a well-formed graph is coherent
+example : StopOK 3 none (init {} (exG ["a"])) := stopOK_init _ _ ⟨rfl, rfl, rfl⟩
+-- `cylc stop 2` while paused, then a reload with a new task, run at once: the stop point is still 2
+example : ((reloadCmd (some (exG ["a", "b"])) (setStopPoint { (init {} (exG ["a"])) with paused := true } 2)).stopPoint,
+    (setStopPoint { (init {} (exG ["a"])) with paused := true } 2).stopPoint) = (some 2, some 2) := by decide
+-- ... also when the reload runs inside the next main loop; and the stop task survives
+example : (mainLoop (setStopPoint { (init {} (exG ["a"])) with paused := true } 2) (some (some (exG ["a", "b"])))).stopPoint
+    = some 2 := by decide
+example : (reloadCmd (some (exG ["a", "b"])) { (init {} (exG ["a"])) with stopTask := some (2, "a") }).stopTask
+    = some (2, "a") := by decide
 
 end CylcModel.C43R
